@@ -1651,6 +1651,10 @@ class Project:
         state = dict(self.__dict__)
         # Locks are not pickleable and must be removed from the state
         del state["_lock"]
+        # The document and store handles are bound to this process (their file
+        # locks are registered on construction); they are re-created lazily.
+        state["_document"] = None
+        state["_stores"] = None
         return state
 
     def __setstate__(self, state):
